@@ -599,6 +599,7 @@ def native_builder_check(payload):
     from AEIC.performance.models import PerformanceModel
     from AEIC.trajectories.builders import LegacyBuilder, Options
     from AEIC.trajectories.builders.legacy import LegacyOptions
+    payload = payload if isinstance(payload, dict) else {}
     Config.reset()
     Config.load(data_path_overrides=[root + '/tests/data'])
     G = Geod(ellps='WGS84')
